@@ -15,15 +15,50 @@ fractions, zero result codes), sessions in ONE process that alternate request an
 by-number / by-name lookups and assemblies in between (every token id shared by both tables, by number,
 after a parse of the opposite kind), parsed documents and looked-up tokens held across later calls and
 re-verified, mutation of a returned object followed by a fresh call.
+
+Hardening (round 3).  History class "read-only use": between from_bytes and as_bytes the SAME documents and tokens are
+used through every accessor that looks read-only (as_xml of the document and of single parts, get_attributes, get_value,
+repr / str / format, len / iteration / comparison / hash, an attribute scan that runs every property, copy / deepcopy /
+pickle of documents and parts (the copies are serialised too), write_part / as_bytes themselves, get_configuration /
+build_constants_table, lookups in the document's own tables, get_token by id / by name / with the part's attributes /
+for the other kind, get_attribute), any number of times and in any order; afterwards as_bytes must give the octets that
+were parsed, the documents must read like a fresh parse (also sent through the model, which has no state), copies must
+serialise like the original and a fresh parse of the same buffer must be unchanged.  Sweep: every implemented token x
+every accessor on a never-serialised document; captured / historic buffers rendered with as_xml; random sequences on
+random 1-3 document buffers; documents assembled through get_token (with and without the configuration tables); steps
+R / RT inside the sessions; failing calls (malformed parse with and without debug output, as_bytes of a broken document,
+failing lookups) as steps X between the others (error-path state).  Ambient class "interpreter / process state": a
+fixed, seeded sample of the whole oracle (captured, historic, every implemented token alone, explicit forms, default-like
+tables, random buffers, API assemblies, read-only histories) is evaluated again with the logging system switched on
+(root and library loggers at DEBUG / NOTSET / INFO ..., a handler that formats every record), with sys.stdout / sys.stderr
+broken (write raises, closed, None, ASCII-only), with warnings as errors, the global random generator reseeded before
+every item, in a worker thread, with from_bytes(debug=True); and in ONE child interpreter per mode (python -O;
+PYTHONOPTIMIZE=2 whose first calls are failing ones; each with another PYTHONHASHSEED) that gets the items and the
+parent's results as JSON files and reports what differs.  Also: the same octets given as a bytearray that the caller
+overwrites afterwards; one buffer of 1200 documents and one document of 2500 tokens.
 """
+import atexit
+import contextlib
+import copy
+import errno
+import io
 import json
 import logging
 import math
 import os
+import pickle
+import random
 import re
 import signal
+import subprocess
+import sys
+import tempfile
+import threading
+import time
+import warnings
+from xml.dom import minidom
 
-from common import impl_error
+from common import impl_error, Infra
 
 PROP = "C15"
 MODULES = ["C15"]
@@ -62,6 +97,11 @@ def _alarm(signum, frame):
 
 def timed(fn, *a, seconds=2.0):
     """run fn under an alarm; returns value | 'ERR <Class>' | 'HANG'"""
+    if threading.current_thread() is not threading.main_thread():  # signals belong to the main thread: no alarm here
+        try:
+            return fn(*a)
+        except BaseException as e:  # noqa
+            return impl_error(e)
     old = signal.signal(signal.SIGALRM, _alarm)
     signal.setitimer(signal.ITIMER_REAL, seconds)
     try:
@@ -135,9 +175,18 @@ def doc_str(mb, d) -> str:
     )
 
 
+PARSE_DEBUG = [False]  # True: every parse of the harness is from_bytes(x, debug=True) (what it prints goes to a sink)
+
+
+def from_bytes(mb, x: bytes):
+    if PARSE_DEBUG[0]:
+        return mb.MBXML.from_bytes(x, debug=True)
+    return mb.MBXML.from_bytes(x)
+
+
 def parse_str(mb, x: bytes):
     """(canonical line, documents | None)"""
-    ds = timed(mb.MBXML.from_bytes, x)
+    ds = timed(from_bytes, mb, x)
     if isinstance(ds, str):
         return ds, None
     return " | ".join(doc_str(mb, d) for d in ds), ds
@@ -816,7 +865,7 @@ def api_eval(mb, LRRP, line):
     if isinstance(b, str):
         pr.append(("api-serialise-raises", f"as_bytes raised {b} on a document assembled through get_token", None, b, {}))
         return out, doc, pr, diag
-    back = timed(mb.MBXML.from_bytes, b)
+    back = timed(from_bytes, mb, b)
     want = sig(doc.parts)
     if isinstance(back, str) or len(back) != 1:
         got = back if isinstance(back, str) else f"{len(back)} documents"
@@ -967,6 +1016,12 @@ def gen_session(ctx):
             shared = [t for t in SHARED_IDS if ref_table(kind)[t][2] in IMPLEMENTED]
             ctx.rng.shuffle(shared)
             steps.append({"s": "A", "line": gen_api_line(ctx, "good", is_req=kind, force=shared[: ctx.rng.randrange(1, 4)])})
+        if ctx.rng.randrange(3) == 0:  # a failing call in between (error-path state)
+            y = bytes.fromhex(steps[-1]["x"]) if steps[-1]["s"] == "P" else gen_buffer(ctx, ndocs=1)[0]
+            y = y[: ctx.rng.randrange(1, len(y))] if ctx.rng.randrange(2) else mutate(ctx, y)
+            steps.append({"s": "X", "x": y.hex(), "how": pick(ctx, ("parse", "parse-debug", "serialise-broken", "lookup")), "r": ctx.rng.randrange(1 << 16)})
+        for _ in range(ctx.rng.randrange(0, 3)):  # read-only use of something returned earlier, in between
+            steps.append({"s": "R" if ctx.rng.randrange(4) else "RT", "r": ctx.rng.randrange(1 << 16), "ops": gen_ops(ctx, 1, n=ctx.rng.randrange(1, 4))})
         if ctx.rng.randrange(4) == 0:
             steps.append({"s": "V"})
         if ctx.rng.randrange(4) == 0:
@@ -996,6 +1051,8 @@ def alternation_session(ctx, first_is_request, with_table):
         for nm in NAMES[name_kind][:: max(1, len(NAMES[name_kind]) // 4)]:
             steps.append(token_step(ctx, None, not name_kind, by_name=True, name=nm))  # a name of the other kind must stay unknown
             steps.append(token_step(ctx, None, name_kind, by_name=True, name=nm))
+        steps.append({"s": "R", "r": ctx.rng.randrange(1 << 16), "ops": [[0, "doc.as_xml", 0]] + gen_ops(ctx, 1, n=2)})
+        steps.append({"s": "RT", "r": ctx.rng.randrange(1 << 16), "ops": gen_ops(ctx, 1, n=2)})
         steps.append({"s": "V"})
         k = not k
     return steps
@@ -1102,6 +1159,55 @@ def session_step(mb, LRRP, st, step):
             now = tok_text(t)
             if now != snap:
                 pr.append(("held-token-changed", f"the token returned by get_token({spec}, is_request={req}) changed during later calls", snap, now))
+    elif s == "X":  # a call that RAISES (malformed octets, with or without debug output; a broken document given to as_bytes):
+        # nothing is checked here, what it may leave behind shows in the steps that follow
+        x = bytes.fromhex(step["x"])
+        with quiet():
+            if step["how"] == "parse":
+                timed(mb.MBXML.from_bytes, x)
+            elif step["how"] == "parse-debug":
+                timed(lambda: mb.MBXML.from_bytes(x, debug=True))
+            elif step["how"] == "serialise-broken" and st.docs:
+                d = copy.deepcopy(st.docs[step["r"] % len(st.docs)][0])
+                for p_ in d.parts:
+                    p_.value = None if step["r"] & 1 else object()
+                d.parts.append(object())
+                timed(mb.MBXML.as_bytes, d)
+            elif step["how"] == "lookup":
+                timed(LRRP.get_token, step["r"], b"", {"nonexistant": 1, 0x22: -1}, bool(step["r"] & 1))
+                timed(LRRP.get_attribute, "nonexistant", object())
+    elif s == "R":  # read-only use of a document returned earlier (any accessors, any order), then it is looked at again
+        if st.docs:
+            d, snap, x, i = st.docs[step["r"] % len(st.docs)]
+            aux = []
+            used = ", ".join(dict.fromkeys(name for _, name, _ in step["ops"]))
+            if apply_ops(mb, LRRP, [d], step["ops"], aux) == "HANG":
+                pr.append(("accessor-hangs", f"a read-only accessor ({used}) did not come back within the alarm", None, "HANG"))
+            now = doc_str(mb, d)
+            if now != snap:
+                pr.append(("read-only-use-changes-serialisation" if now.rsplit(";bytes=", 1)[-1] != snap.rsplit(";bytes=", 1)[-1] else "read-only-use-changes-document",
+                           f"document {i} returned by from_bytes({x.hex()}) changed although it was only read ({used})", snap, now))
+            for how, _d, b in aux:
+                if (b if isinstance(b, str) else hx(b)) != snap.rsplit(";bytes=", 1)[-1]:
+                    pr.append(("copy-serialises-differently", f"{how} of document {i} returned by from_bytes({x.hex()}) serialises differently from the document",
+                               snap.rsplit(";bytes=", 1)[-1], b if isinstance(b, str) else b.hex()))
+    elif s == "RT":  # the same for a token returned by get_token: put into a document of its kind and only read
+        if st.toks:
+            t, snap, req, spec = st.toks[step["r"] % len(st.toks)]
+            used = ", ".join(dict.fromkeys(name for _, name, _ in step["ops"]))
+
+            def use():
+                ident = [m for m in mb.MBXMLDocumentIdentifier if m.value[0] == (5 if req else 7)][0]
+                conf = LRRP.get_configuration(ident)
+                d = LRRP(document_id=ident, elements_config=conf[mb.MBXMLTokenType.ELEMENT_TOKEN], attributes_config=conf[mb.MBXMLTokenType.ATTRIBUTE_TOKEN])
+                d.parts.append(t)
+                return apply_ops(mb, LRRP, [d], step["ops"], [])
+
+            if timed(use, seconds=10.0) == "HANG":
+                pr.append(("accessor-hangs", f"a read-only accessor ({used}) did not come back within the alarm", None, "HANG"))
+            now = tok_text(t)
+            if now != snap:
+                pr.append(("read-only-use-changes-token", f"the token returned by get_token({spec}, is_request={req}) changed although it was only read ({used})", snap, now))
     elif s == "MD":
         if st.docs:
             d, snap, x, i = st.docs.pop(step["r"] % len(st.docs))
@@ -1141,6 +1247,755 @@ def run_session(ctx, mb, LRRP, steps, origin):
                 ctx.fail(kind, {"op": "session", "origin": origin, "failed_step": n, "steps": steps[: n + 1]}, what, expected=expected, actual=actual)
     ctx.case(("session", json.dumps(steps, sort_keys=True)))
     return pairs
+
+
+# ------------------------------------------------------------- read-only use of parsed documents (history class)
+STDOUT_BROKEN = [False]  # an ambient setting replaced sys.stdout on purpose: leave it alone
+
+
+@contextlib.contextmanager
+def quiet():
+    """what the library prints while a document is rendered is not the harness' output"""
+    if STDOUT_BROKEN[0]:
+        yield
+    else:
+        with contextlib.redirect_stdout(io.StringIO()):
+            yield
+
+
+def _parts(d, r):
+    ps = list(d.parts)
+    return ps[::-1] if r & 1 else ps
+
+
+def _is_req(d):
+    return REF["docs"].get(str(d.id.value[0]), {}).get("table") == "t0"
+
+
+def _each(d, r, fn):
+    """fn on every part (in order, or backwards); a part that raises does not spare the others"""
+    out = []
+    for p in _parts(d, r):
+        try:
+            out.append(fn(p))
+        except Exception as e:  # noqa
+            out.append(impl_error(e))
+    return out
+
+
+def _scan(o):
+    """read every attribute there is (properties and descriptors run, methods are only fetched)"""
+    out = []
+    for a in dir(o):
+        try:
+            out.append(type(getattr(o, a)).__name__)
+        except Exception as e:  # noqa
+            out.append(impl_error(e))
+    vars(o)
+    return out
+
+
+def _try(fn, *a):
+    try:
+        return fn(*a)
+    except Exception as e:  # noqa
+        return impl_error(e)
+
+
+def _part_xml(p, d):
+    doc = minidom.Document()
+    root = doc.createElement("root")
+    doc.appendChild(root)
+    p.as_xml(document=doc, root=root, mbxml_document=d)
+    return doc.toxml()
+
+
+def _attr_key(a):
+    return a if isinstance(a, int) else a.token_id
+
+
+def _explicit(p):
+    return {a.name: a.value for a in p.attributes if not isinstance(a, int)}
+
+
+def _copy_bytes(mb, c, how, aux, d):
+    b = _try(mb.MBXML.as_bytes, c)
+    aux.append((how, d, b))
+    return b
+
+
+# name -> f(mb, LRRP, document, r, aux): every one of them LOOKS read-only; none is told to change anything
+ACCESSORS = {
+    "doc.as_xml": lambda mb, L, d, r, aux: d.as_xml(),
+    "doc.repr": lambda mb, L, d, r, aux: repr(d),
+    "doc.str": lambda mb, L, d, r, aux: (str(d), f"{d}", "%s" % (d,)),
+    "doc.len-iter": lambda mb, L, d, r, aux: (len(d.parts), [p.token_id for p in d.parts], list(enumerate(d.parts)), list(reversed(d.parts)),
+                                               _try(len, d), _try(lambda: list(iter(d))), bool(d), d == d, d != d, _try(hash, d),
+                                               d.parts == list(d.parts), [p in d.parts for p in d.parts]),
+    "doc.attribute-scan": lambda mb, L, d, r, aux: (_scan(d), d.id.value, d.id.name, bytes(d.constants_table)),
+    "doc.copy": lambda mb, L, d, r, aux: _copy_bytes(mb, copy.copy(d), "copy.copy", aux, d),
+    "doc.deepcopy": lambda mb, L, d, r, aux: (lambda c: (_copy_bytes(mb, c, "copy.deepcopy", aux, d), _try(c.as_xml)))(copy.deepcopy(d)),
+    "doc.pickle": lambda mb, L, d, r, aux: _copy_bytes(mb, pickle.loads(pickle.dumps(d)), "pickle", aux, d),
+    "doc.as_bytes": lambda mb, L, d, r, aux: (mb.MBXML.as_bytes(d), mb.MBXML.as_bytes(d)),
+    "doc.configuration": lambda mb, L, d, r, aux: (L.get_configuration(d.id), mb.MBXML.get_implementation(d.id), _try(mb.MBXML.build_constants_table, d.id),
+                                                    L.get_known_tokens(True), L.get_known_tokens(False), L.get_known_attributes(True),
+                                                    mb.MBXMLDocumentIdentifier.resolve(d.id.value[0])),
+    "doc.config-lookup": lambda mb, L, d, r, aux: _each(d, r, lambda p: (d.elements_config.get(p.token_id), d.elements_config[p.token_id].attributes,
+                                                                         [d.attributes_config.get(_attr_key(a)) for a in p.attributes])),
+    "part.get_attributes": lambda mb, L, d, r, aux: _each(d, r, lambda p: p.get_attributes(d)),
+    "part.get_value": lambda mb, L, d, r, aux: _each(d, r, lambda p: p.get_value(d)),
+    "part.repr-str": lambda mb, L, d, r, aux: _each(d, r, lambda p: (repr(p), str(p), f"{p}")),
+    "part.copy": lambda mb, L, d, r, aux: _each(d, r, lambda p: (lambda c: (_try(mb.MBXML.write_part, c), _try(c.get_attributes, d)))(copy.copy(p))),
+    "part.deepcopy": lambda mb, L, d, r, aux: _each(d, r, lambda p: (lambda c: (_try(mb.MBXML.write_part, c), _try(c.get_attributes, d)))(copy.deepcopy(p))),
+    "part.write_part": lambda mb, L, d, r, aux: _each(d, r, lambda p: mb.MBXML.write_part(p)),
+    "part.as_xml": lambda mb, L, d, r, aux: _each(d, r, lambda p: _part_xml(p, d)),
+    "part.attribute-scan": lambda mb, L, d, r, aux: _each(d, r, lambda p: (_scan(p), p == p, _try(hash, p), bool(p))),
+    "part.attributes-iter": lambda mb, L, d, r, aux: _each(d, r, lambda p: (len(p.attributes), [repr(a) for a in p.attributes],
+                                                                            [(a.name, a.value, a.token_id, _try(a.get_value, d)) for a in p.attributes if not isinstance(a, int)],
+                                                                            list(reversed(p.attributes)), [a in p.attributes for a in p.attributes])),
+    "lookup.get_token-by-id": lambda mb, L, d, r, aux: _each(d, r, lambda p: L.get_token(p.token_id, p.value, {}, _is_req(d))),
+    "lookup.get_token-by-name": lambda mb, L, d, r, aux: _each(d, r, lambda p: L.get_token(p.name, p.value, {}, _is_req(d))),
+    "lookup.get_token-with-attributes": lambda mb, L, d, r, aux: _each(d, r, lambda p: L.get_token(p.token_id, p.value, _explicit(p), _is_req(d))),
+    "lookup.get_token-other-kind": lambda mb, L, d, r, aux: _each(d, r, lambda p: L.get_token(p.token_id, p.value, {}, not _is_req(d))),
+    "lookup.get_attribute": lambda mb, L, d, r, aux: _each(d, r, lambda p: [(_try(L.get_attribute, _attr_key(a), d.attributes_config[a].value if isinstance(a, int) else a.value),
+                                                                             _try(L.get_attribute, d.attributes_config[_attr_key(a)].name, d.attributes_config[_attr_key(a)].value))
+                                                                            for a in p.attributes]),
+}
+ACC_NAMES = sorted(ACCESSORS)
+
+
+def apply_ops(mb, LRRP, ds, ops, aux):
+    """use the documents ds the way `ops` says: [[document index, accessor, r], …]; returns 'HANG' if one did not come back"""
+    with quiet():
+        for i, name, r in ops:
+            if timed(ACCESSORS[name], mb, LRRP, ds[i % len(ds)], r, aux) == "HANG":
+                return "HANG"
+    return None
+
+
+AFTER_USE = [None]  # canonical text of the documents of the last history_eval after they were used (None: as_bytes failed)
+
+
+def history_eval(mb, LRRP, x: bytes, ops, first=False):
+    """from_bytes(x) -> read-only use of the returned documents (ops) -> as_bytes of the SAME documents:
+    [(kind, what, expected, actual)].  first: the documents are serialised once before they are used as well."""
+    fresh, ds0 = parse_str(mb, x)
+    if ds0 is None:
+        return [("parse-raises", f"from_bytes raised {fresh} on a canonical buffer", "documents", fresh)]
+    ds = timed(from_bytes, mb, x)
+    if isinstance(ds, str) or not ds:
+        return [("parse-depends-on-history", "the second parse of the same buffer failed", fresh, str(ds))]
+    if first:
+        for d in ds:
+            timed(mb.MBXML.as_bytes, d)
+    aux = []
+    pr = []
+    used = ", ".join(dict.fromkeys(name for _, name, _ in ops))
+    if apply_ops(mb, LRRP, ds, ops, aux) == "HANG":
+        pr.append(("accessor-hangs", f"a read-only accessor ({used}) did not come back within the alarm", None, "HANG"))
+    segs = [timed(mb.MBXML.as_bytes, d) for d in ds]
+    AFTER_USE[0] = None
+    if any(isinstance(b, str) for b in segs):
+        pr.append(("read-only-use-changes-serialisation", f"as_bytes raises on a parsed document after it was only read ({used})",
+                   x.hex(), str([b if isinstance(b, str) else b.hex() for b in segs])))
+    elif b"".join(segs) != x:
+        pr.append(("read-only-use-changes-serialisation", f"as_bytes of the parsed documents no longer gives the octets they were parsed from after they were only read ({used})",
+                   x.hex(), b"".join(segs).hex()))
+    else:
+        now = " | ".join(doc_str(mb, d) for d in ds)
+        AFTER_USE[0] = now
+        if now != fresh:
+            pr.append(("read-only-use-changes-document", f"token ids / values / attributes of the parsed documents changed although they were only read ({used})", fresh, now))
+    own = [timed(mb.MBXML.as_bytes, d) for d in ds0]  # the octets each document came from (first, untouched parse)
+    for how, d, b in aux:
+        want = next((own[i] for i, q in enumerate(ds) if q is d and i < len(own)), None)
+        if want is not None and not isinstance(want, str) and b != want:
+            pr.append(("copy-serialises-differently", f"{how} of a parsed document serialises differently from the document", want.hex(),
+                       b if isinstance(b, str) else b.hex()))
+    again = parse_str(mb, x)[0]
+    if again != fresh:
+        pr.append(("parse-depends-on-history", f"after read-only use of parsed documents ({used}) the same buffer parses differently", fresh, again))
+    return pr
+
+
+HISTORY_PAIRS = []
+
+
+def history_minimise(mb, LRRP, x, ops, first):
+    """a single accessor call that shows the same, if there is one (a shorter story for the report)"""
+    for op in ops:
+        if history_eval(mb, LRRP, x, [op], first):
+            return [op]
+    for k in range(1, len(ops)):
+        if history_eval(mb, LRRP, x, ops[:k], first):
+            return ops[:k]
+    return ops
+
+
+def history_case(ctx, mb, LRRP, x, ops, first, origin):
+    pr = history_eval(mb, LRRP, x, ops, first)
+    if AFTER_USE[0] is not None and not any(k == "parse-raises" for k, *_ in pr):
+        HISTORY_PAIRS.append((f"lrrp.parse {hx(x)}", AFTER_USE[0]))  # the model has no state: it says what a fresh parse says
+    ctx.case(("history", x, json.dumps(ops), first))
+    ctx.count(f"history:{origin}")
+    for _, name, _ in ops:
+        ctx.count(f"history-accessor:{name}")
+    if pr:
+        small = history_minimise(mb, LRRP, x, ops, first)
+        spr = history_eval(mb, LRRP, x, small, first) or pr
+        kind, what, expected, actual = spr[0]
+        ctx.fail(kind, {"op": "history", "buffer": x.hex(), "ops": small, "serialised_before": first, "origin": origin, "found_with": ops if small != ops else None},
+                 what, expected=expected, actual=actual)
+        if "hangs" in kind:
+            note_hang(ctx)
+    return pr
+
+
+def gen_ops(ctx, ndocs, n=None):
+    n = n if n is not None else ctx.rng.randrange(1, 9)
+    ops = []
+    for _ in range(n):
+        name = pick(ctx, ACC_NAMES)
+        ops.append([ctx.rng.randrange(ndocs), name, ctx.rng.randrange(4)])
+        if ctx.rng.randrange(4) == 0:  # the same call again, straight away
+            ops.append(list(ops[-1]))
+    return ops
+
+
+def single_token_buffers(ctx, tail=True):
+    """every implemented token of the request and of the report table, alone in a document (followed by one more token, so a
+    dropped or extra octet cannot hide behind the end of the document): [(buffer, expected, token id)]"""
+    out = []
+    for kind in ("t0", "t1"):
+        ids = [d for d in LRRP_DOCS if REF["docs"][str(d)]["table"] == kind]
+        toks = [t for t in REF["tables"][kind] if t[2] in IMPLEMENTED]
+        for n, tok in enumerate(toks):
+            did = ids[n % len(ids)]
+            d = REF["docs"][str(did)]
+            o, e = gen_token(ctx, tok)
+            body, parts = (b"" if d["ncdt"] else b"\x00") + o, [e]
+            if tail:
+                o2, e2 = gen_token(ctx, pick(ctx, toks))
+                body += o2
+                parts.append(e2)
+            x = enc_u(did) + enc_u(len(body)) + body
+            out.append((x, [{"id": did, "cdt": DEFAULT_CDT if d["ncdt"] else b"", "segment": x, "parts": parts, "mode": "x"}], tok[0]))
+    return out
+
+
+def run_histories(ctx, mb, LRRP, caps):
+    """from_bytes -> any number of read-only-looking calls on the returned documents and tokens, in any order -> as_bytes"""
+    # every implemented token x every accessor on its own, on a document that was never serialised before
+    for x, _exp, _tid in single_token_buffers(ctx):
+        for name in ACC_NAMES:
+            history_case(ctx, mb, LRRP, x, [[0, name, ctx.rng.randrange(4)]], False, "every-token-x-every-accessor")
+    # captured and historic buffers: rendered, then serialised (what an application that logs the XML does)
+    for x in caps + [bytes.fromhex(h) for h in HISTORIC]:
+        if parse_str(mb, x)[1] is None or canonical_problems(mb, x, None)[2]:
+            continue
+        nd = walk_lengths(x) or 1
+        history_case(ctx, mb, LRRP, x, [[i, "doc.as_xml", 0] for i in range(nd)], False, "captured:as_xml")
+        for _ in range(2):
+            history_case(ctx, mb, LRRP, x, gen_ops(ctx, nd), bool(ctx.rng.randrange(2)), "captured:random-sequence")
+    # random documents, random sequences (1-3 documents per buffer; calls on one document must not show in another)
+    for _ in range(ctx.budget(500, 20000)):
+        x, exp = gen_buffer(ctx, ntok=ctx.rng.randrange(1, 7) if ctx.rng.randrange(4) else None)
+        history_case(ctx, mb, LRRP, x, gen_ops(ctx, len(exp)), bool(ctx.rng.randrange(2)), "generated:random-sequence")
+    # serialised / rendered, then edited, then serialised again (parsed documents and assembled ones)
+    for n in range(ctx.budget(300, 10000)):
+        edits = [pick(ctx, EDITS) for _ in range(ctx.rng.randrange(1, 3))]
+        ops = gen_ops(ctx, 1, n=ctx.rng.randrange(0, 3))
+        if n % 2:
+            x = gen_buffer(ctx, ndocs=1, ntok=ctx.rng.randrange(1, 7))[0]
+            inp = {"op": "edit-history", "buffer": x.hex(), "ops": ops, "edits": edits}
+        else:
+            line, cfg = gen_api_line(ctx, "good"), bool(ctx.rng.randrange(2))
+            inp = {"op": "edit-history", "line": line, "with_configuration": cfg, "ops": ops, "edits": edits}
+        pr = edit_history(mb, LRRP, inp)
+        ctx.case(("edit-history", json.dumps(inp, sort_keys=True)))
+        ctx.count(f"history:edited-after-serialisation:{'parsed' if n % 2 else 'assembled'}")
+        for kind, what, expected, actual in pr[:1]:
+            ctx.fail(kind, inp, what, expected=expected, actual=actual)
+    # documents assembled through the lookup API: used read-only between the assembly and as_bytes
+    for _ in range(ctx.budget(300, 10000)):
+        line = gen_api_line(ctx, "good")
+        ops = gen_ops(ctx, 1, n=ctx.rng.randrange(1, 5))
+        cfg = bool(ctx.rng.randrange(2))
+        pr = api_history_eval(mb, LRRP, line, ops, cfg)
+        ctx.case(("api-history", line, json.dumps(ops), cfg))
+        ctx.count("history:assembled-document")
+        for kind, what, expected, actual in pr[:1]:
+            ctx.fail(kind, {"op": "api-history", "line": line, "ops": ops, "with_configuration": cfg}, what, expected=expected, actual=actual)
+
+
+def edit_history(mb, LRRP, inp):
+    if "buffer" in inp:
+        x = bytes.fromhex(inp["buffer"])
+        return edit_eval(mb, LRRP, lambda: from_bytes(mb, x)[0], inp["ops"], inp["edits"], f"document parsed from {inp['buffer']}")
+    return edit_eval(mb, LRRP, lambda: api_build(mb, LRRP, inp["line"], inp.get("with_configuration", False)), inp["ops"], inp["edits"],
+                     "document assembled through get_token")
+
+
+def api_build(mb, LRRP, line, with_config=False):
+    did, is_req, cdt, calls = parse_api_line(line)
+    ident = [m for m in mb.MBXMLDocumentIdentifier if m.value[0] == did][0]
+    if with_config:  # what a caller who wants to render the document supplies
+        conf = LRRP.get_configuration(ident)
+        doc = LRRP(document_id=ident, elements_config=conf[mb.MBXMLTokenType.ELEMENT_TOKEN], attributes_config=conf[mb.MBXMLTokenType.ATTRIBUTE_TOKEN])
+    else:
+        doc = LRRP(document_id=ident)
+    for key, value, ad in calls:
+        doc.parts.append(doc.get_token(name=key, value=value, attributes=dict(ad), is_request=is_req))
+    if cdt is not None:
+        doc.constants_table = cdt
+        doc.is_constant_table_default = False
+    return doc
+
+
+EDITS = ("pop-last", "pop-first", "reverse", "duplicate-first", "swap-ends", "clear", "replace-parts-list")
+
+
+def edit_doc(d, how):
+    """what an application does to a document it is still assembling (the document stays well formed)"""
+    ps = d.parts
+    if how == "pop-last" and ps:
+        ps.pop()
+    elif how == "pop-first" and ps:
+        del ps[0]
+    elif how == "reverse":
+        ps.reverse()
+    elif how == "duplicate-first" and ps:
+        ps.append(copy.copy(ps[0]))
+    elif how == "swap-ends" and len(ps) > 1:
+        ps[0], ps[-1] = ps[-1], ps[0]
+    elif how == "clear":
+        del ps[:]
+    elif how == "replace-parts-list":
+        d.parts = list(ps[1:])
+
+
+def edit_eval(mb, LRRP, make, ops, edits, what):
+    """serialise / use read-only, THEN edit the document, then serialise: the octets are those of the same document edited
+    before anything else was done with it (nothing remembered from the first serialisation).  make() -> a fresh document"""
+    ref, doc = timed(make), timed(make)
+    if isinstance(ref, str) or isinstance(doc, str):
+        return []
+    for e in edits:
+        edit_doc(ref, e)
+    want = timed(mb.MBXML.as_bytes, ref)
+    if isinstance(want, str):
+        return []
+    timed(mb.MBXML.as_bytes, doc)
+    used = ", ".join(dict.fromkeys(["as_bytes"] + [name for _, name, _ in ops]))
+    if apply_ops(mb, LRRP, [doc], ops, []) == "HANG":
+        return [("accessor-hangs", f"a read-only accessor ({used}) did not come back within the alarm", None, "HANG")]
+    for e in edits:
+        edit_doc(doc, e)
+    got = timed(mb.MBXML.as_bytes, doc)
+    if got != want:
+        return [("serialisation-remembers-earlier-state", f"{what}: after {used}, then {' + '.join(edits)} on its parts, as_bytes does not give the octets of the document as it is now",
+                 want.hex(), got if isinstance(got, str) else got.hex())]
+    return []
+
+
+def api_history_eval(mb, LRRP, line, ops, with_config):
+    """a document assembled through get_token, used read-only, serialised: the octets (and what they parse back to) are
+    those of the same assembly serialised straight away"""
+    ref = timed(api_build, mb, LRRP, line, with_config)
+    doc = timed(api_build, mb, LRRP, line, with_config)
+    if isinstance(ref, str) or isinstance(doc, str):
+        return []
+    want = timed(mb.MBXML.as_bytes, ref)
+    if isinstance(want, str):
+        return []
+    aux = []
+    used = ", ".join(dict.fromkeys(name for _, name, _ in ops))
+    if apply_ops(mb, LRRP, [doc], ops, aux) == "HANG":
+        return [("accessor-hangs", f"a read-only accessor ({used}) did not come back within the alarm", None, "HANG")]
+    got = timed(mb.MBXML.as_bytes, doc)
+    pr = []
+    if got != want:
+        pr.append(("read-only-use-changes-serialisation", f"a document assembled through get_token serialises differently after it was only read ({used})",
+                   want.hex(), got if isinstance(got, str) else got.hex()))
+    elif doc_str(mb, doc) != doc_str(mb, ref):
+        pr.append(("read-only-use-changes-document", f"token ids / values / attributes of a document assembled through get_token changed although it was only read ({used})",
+                   doc_str(mb, ref), doc_str(mb, doc)))
+    for how, _d, b in aux:
+        if b != want:
+            pr.append(("copy-serialises-differently", f"{how} of a document assembled through get_token serialises differently from the document",
+                       want.hex(), b if isinstance(b, str) else b.hex()))
+    return pr
+
+
+
+# ------------------------------------------------------------- interpreter / process state (ambient class)
+LIB_LOGGERS = ("okdmr", "okdmr.dmrlib", "okdmr.dmrlib.motorola", "okdmr.dmrlib.motorola.mbxml", "okdmr.dmrlib.motorola.lrrp",
+               "okdmr.dmrlib.motorola.arrp", "mbxml", "lrrp", "MBXML", "MBXMLToken", "MBXMLDocument", "LRRP", "ARRP")
+LOGGING_SETTINGS = {  # name -> (level of the root logger, level of the library's loggers)
+    "root=DEBUG,library=DEBUG": (logging.DEBUG, logging.DEBUG),
+    "root=NOTSET,library=NOTSET": (logging.NOTSET, logging.NOTSET),
+    "root=INFO,library=INFO": (logging.INFO, logging.INFO),
+    "root=WARNING,library=DEBUG": (logging.WARNING, logging.DEBUG),
+    "root=DEBUG,library=ERROR": (logging.DEBUG, logging.ERROR),
+}
+STDOUT_SETTINGS = ("stdout-raises-OSError", "stdout-closed", "stdout-None", "stdout-ascii-strict", "stdout-isatty", "stdout+stderr-raise-OSError",
+                   "stdout+stderr-None")
+
+
+class _Tty(io.StringIO):
+    """an interactive terminal (what is written goes nowhere)"""
+
+    def isatty(self):
+        return True
+
+
+def _no_trace(frame, event, arg):  # a debugger / coverage tool is attached: sys.gettrace() is not None
+    return None
+LOG_RECORDS = [0]
+
+
+class _Capture(logging.Handler):
+    """what a configured application has: a handler that formats every record it is given; the text goes nowhere"""
+
+    def emit(self, record):
+        LOG_RECORDS[0] += 1
+        try:
+            record.getMessage()
+        except Exception:  # noqa   (a real handler reports formatting errors on stderr and goes on)
+            pass
+
+
+class _Broken:
+    """a stream whose consumer went away: every operation raises"""
+
+    encoding = "utf-8"
+    errors = "strict"
+    closed = False
+
+    def _fail(self, *a, **kw):
+        raise OSError(errno.EPIPE, "Broken pipe")
+
+    write = writelines = flush = fileno = _fail
+
+    def writable(self):
+        return True
+
+    def isatty(self):
+        return False
+
+
+@contextlib.contextmanager
+def logging_state(name):
+    root_level, lib_level = LOGGING_SETTINGS[name]
+    root = logging.getLogger()
+    mgr = logging.Logger.manager
+    saved = (mgr.disable, root.level, list(root.handlers), logging.lastResort)
+    loggers = {n: lg for n, lg in list(mgr.loggerDict.items()) if isinstance(lg, logging.Logger)}
+    existed = set(mgr.loggerDict)
+    for n in LIB_LOGGERS:
+        loggers[n] = logging.getLogger(n)
+    levels = {n: (lg.level, lg.disabled, lg.propagate) for n, lg in loggers.items()}
+    cap = _Capture(level=logging.NOTSET)
+    try:
+        logging.disable(logging.NOTSET)
+        root.handlers[:] = [cap]
+        root.setLevel(root_level)
+        for lg in loggers.values():
+            lg.setLevel(lib_level)
+            lg.disabled = False
+        before = LOG_RECORDS[0]
+        root.log(max(root_level, logging.DEBUG), "harness self-test %s", name)
+        logging.getLogger("MBXML").log(max(lib_level, logging.DEBUG), "harness self-test %s", name)
+        if LOG_RECORDS[0] != before + 2:
+            raise Infra(f"logging setting {name} is not in force: {LOG_RECORDS[0] - before} of 2 self-test records arrived")
+        yield
+    finally:
+        for n, lg in loggers.items():
+            lg.setLevel(levels[n][0])
+            lg.disabled, lg.propagate = levels[n][1], levels[n][2]
+        root.handlers[:] = saved[2]
+        root.setLevel(saved[1])
+        logging.lastResort = saved[3]
+        logging.disable(saved[0])
+        for n in set(mgr.loggerDict) - existed:
+            lg = mgr.loggerDict[n]
+            if isinstance(lg, logging.Logger):
+                lg.setLevel(logging.NOTSET)
+                lg.handlers[:] = []
+
+
+@contextlib.contextmanager
+def stdout_state(name):
+    out, err, flag = sys.stdout, sys.stderr, STDOUT_BROKEN[0]
+    try:
+        if name == "stdout-closed":
+            f = io.StringIO()
+            f.close()
+            sys.stdout = f
+        elif name == "stdout-ascii-strict":  # a C-locale terminal: text outside ASCII cannot be printed
+            sys.stdout = io.TextIOWrapper(io.BytesIO(), encoding="ascii", errors="strict", write_through=True)
+        elif name == "stdout-sink":
+            sys.stdout = io.StringIO()
+        elif name == "stdout-isatty":
+            sys.stdout = _Tty()
+        else:
+            sys.stdout = None if name.endswith("None") else _Broken()
+            if name.startswith("stdout+stderr"):
+                sys.stderr = sys.stdout
+        STDOUT_BROKEN[0] = True
+        yield
+    finally:
+        sys.stdout, sys.stderr, STDOUT_BROKEN[0] = out, err, flag
+
+
+def amb_text(cfg):
+    return ", ".join(f"{k}={v}" for k, v in (cfg or {}).items() if v is not None) or "process default"
+
+
+@contextlib.contextmanager
+def ambient(cfg):
+    """switch logging configuration, standard streams, warning filters, global random state and the parser's debug
+    flag inside this process, and put everything back afterwards, whatever happens"""
+    cfg = cfg or {}
+    with contextlib.ExitStack() as stack:
+        if cfg.get("logging") is not None:
+            stack.enter_context(logging_state(cfg["logging"]))
+        if cfg.get("warnings") is not None:
+            stack.enter_context(warnings.catch_warnings())
+            warnings.simplefilter(cfg["warnings"])
+        if cfg.get("settrace") is not None:
+            stack.callback(sys.settrace, sys.gettrace())
+            stack.callback(threading.settrace, None)
+            sys.settrace(_no_trace)
+            threading.settrace(_no_trace)
+        if cfg.get("random") is not None:
+            stack.callback(random.setstate, random.getstate())
+            random.seed(cfg["random"])
+        if cfg.get("library_debug") is not None:  # non-default configuration of the parser: from_bytes(x, debug=True)
+            stack.callback(PARSE_DEBUG.__setitem__, 0, PARSE_DEBUG[0])
+            PARSE_DEBUG[0] = bool(cfg["library_debug"])
+            if cfg.get("stdout") is None:
+                stack.enter_context(stdout_state("stdout-sink"))  # what it prints is not the harness' output
+        if cfg.get("stdout") is not None:
+            stack.enter_context(stdout_state(cfg["stdout"]))
+        yield
+
+
+def ambient_items(ctx, mb, LRRP, caps):
+    """a fixed, seeded sample of the whole oracle as JSON-able items: canonical buffers (captured, historic, every
+    implemented token alone, explicit forms with a shorter synonym, default-like inline tables, random 1-3 documents),
+    documents assembled through the lookup API, read-only histories"""
+    items = []
+    for x in [bytes.fromhex(h) for h in HISTORIC] + caps:
+        items.append({"k": "P", "x": x.hex(), "exp": None})
+    for x, exp, _tid in single_token_buffers(ctx) + single_token_buffers(ctx, tail=False):
+        items.append({"k": "P", "x": x.hex(), "exp": exp_json(exp)})
+    for x, exp, _o in synonym_sweep(ctx)[::5] + default_table_sweep(ctx)[::7]:
+        items.append({"k": "P", "x": x.hex(), "exp": exp_json(exp)})
+    for _ in range(300):
+        x, exp = gen_buffer(ctx)
+        items.append({"k": "P", "x": x.hex(), "exp": exp_json(exp)})
+    for _ in range(150):
+        items.append({"k": "A", "line": gen_api_line(ctx, "good")})
+    for x, exp, _tid in single_token_buffers(ctx)[::2]:
+        items.append({"k": "H", "x": x.hex(), "ops": gen_ops(ctx, 1, n=ctx.rng.randrange(1, 4)), "first": bool(ctx.rng.randrange(2))})
+    for _ in range(60):
+        x, exp = gen_buffer(ctx, ntok=ctx.rng.randrange(1, 6))
+        items.append({"k": "H", "x": x.hex(), "ops": gen_ops(ctx, len(exp)), "first": bool(ctx.rng.randrange(2))})
+    for _ in range(40):
+        items.append({"k": "AH", "line": gen_api_line(ctx, "good"), "ops": gen_ops(ctx, 1, n=2), "cfg": bool(ctx.rng.randrange(2))})
+    return items
+
+
+def item_eval(mb, LRRP, item):
+    """[canonical text of what the code returned, [[kind, what, expected, actual], …] found by the oracle]"""
+    k = item["k"]
+    if k == "P":
+        line, _ds, pr = canonical_problems(mb, bytes.fromhex(item["x"]), exp_unjson(item["exp"]) if item.get("exp") is not None else None)
+        return [line, [[kind, what, str(e), str(a)] for kind, what, e, a, _i in pr]]
+    if k == "A":
+        out, _doc, pr, _diag = api_eval(mb, LRRP, item["line"])
+        return [out, [[kind, what, str(e), str(a)] for kind, what, e, a, _x in pr]]
+    if k == "H":
+        pr = history_eval(mb, LRRP, bytes.fromhex(item["x"]), item["ops"], item["first"])
+        return ["", [[kind, what, str(e), str(a)] for kind, what, e, a in pr]]
+    if k == "AH":
+        pr = api_history_eval(mb, LRRP, item["line"], item["ops"], item["cfg"])
+        return ["", [[kind, what, str(e), str(a)] for kind, what, e, a in pr]]
+    raise ValueError(k)
+
+
+def item_differs(ref, got):
+    """None, or (what, expected, actual): the text and the kinds of problems must be those of the parent's default run"""
+    if got[0] != ref[0] or [q[0] for q in got[1]] != [q[0] for q in ref[1]]:
+        new = [q for q in got[1] if q[0] not in [r[0] for r in ref[1]]]
+        if new:
+            return new[0][1], new[0][2], new[0][3]
+        return "from_bytes / as_bytes / get_token give another result", ref[0], got[0]
+    return None
+
+
+def item_text(item):
+    return f"{item['k']} {item.get('x') or item.get('line')}"[:120] + (f" ops={item['ops']}" if item.get("ops") else "")
+
+
+def run_items(ctx, mb, LRRP, items, refs, cfg):
+    """the sample under the setting that is active (cfg: its description, for the report)"""
+    def body():
+        for item, ref in zip(items, refs):
+            if cfg.get("random") is not None:
+                random.seed(cfg["random"])
+            got = item_eval(mb, LRRP, item)
+            ctx.case(("ambient", amb_text(cfg), json.dumps(item, sort_keys=True)), nontrivial=False)
+            diff = item_differs(ref, got)
+            if diff:
+                ctx.fail("ambient-dependent-result", {"op": "ambient", "item": item, "ambient": cfg},
+                         f"under [{amb_text(cfg)}] {item_text(item)}: {diff[0]}", expected=diff[1], actual=diff[2])
+    with ambient(cfg):
+        if cfg.get("thread"):
+            th = threading.Thread(target=body)
+            th.start()
+            th.join()
+        else:
+            body()
+    ctx.count("ambient:settings")
+    ctx.count("ambient:item-evaluations", len(items))
+
+
+AMBIENT_MAIN = [{"logging": "root=DEBUG,library=DEBUG"}, {"stdout": "stdout-raises-OSError"}, {"library_debug": True}]
+
+
+def ambient_settings():
+    out = list(AMBIENT_MAIN)
+    out += [{"logging": n} for n in list(LOGGING_SETTINGS)[1:]] + [{"stdout": n} for n in STDOUT_SETTINGS[1:]]
+    out += [{"warnings": "error"}, {"random": 0}, {"thread": "worker"}, {"settrace": True},
+            {"logging": "root=DEBUG,library=DEBUG", "library_debug": True},
+            {"logging": "root=DEBUG,library=DEBUG", "stdout": "stdout-raises-OSError", "warnings": "error", "random": 1},
+            {"logging": "root=NOTSET,library=NOTSET", "stdout": "stdout+stderr-None", "thread": "worker"}]
+    return out
+
+
+HARNESS = os.path.dirname(HERE)
+CHILD_MODES = {  # name -> (interpreter options, environment, sys.flags.optimize expected in the child)
+    "python -O": (["-O"], {"PYTHONHASHSEED": "1"}, 1),
+    "PYTHONOPTIMIZE=2": ([], {"PYTHONOPTIMIZE": "2", "PYTHONHASHSEED": "4242"}, 2),
+}
+CHILD_TIMEOUT = 120
+
+
+def child_start(mode, pairs):
+    """start `python <options>` on [[item, reference], …]; the job and the answer travel in files"""
+    argv, env_add, _opt = CHILD_MODES[mode]
+    d = tempfile.mkdtemp(prefix="verif-c15-child-")
+    with open(os.path.join(d, "job.json"), "w") as fh:
+        json.dump({"items": pairs, "first_calls_fail": mode == list(CHILD_MODES)[-1]}, fh)
+    env = dict(os.environ)
+    env.pop("PYTHONOPTIMIZE", None)
+    env.update(env_add)
+    env["PYTHONDONTWRITEBYTECODE"] = "1"  # no *.opt-N.pyc next to the sources under test
+    code = f"import sys; sys.path.insert(0, {HARNESS!r}); import props.c15 as m; sys.exit(m.child_main(sys.argv[1]))"
+    with open(os.path.join(d, "stderr"), "w") as err:
+        p = subprocess.Popen([sys.executable] + argv + ["-c", code, d], stdin=subprocess.DEVNULL, stdout=subprocess.DEVNULL,
+                             stderr=err, env=env, cwd=HARNESS)
+    ch = {"mode": mode, "dir": d, "proc": p, "t0": time.time()}
+    atexit.register(_child_cleanup, ch)
+    return ch
+
+
+def _child_cleanup(ch):
+    import shutil
+
+    if ch["proc"].poll() is None:
+        ch["proc"].kill()
+    shutil.rmtree(ch["dir"], ignore_errors=True)
+
+
+def child_result(ch):
+    import shutil
+
+    try:
+        try:
+            rc = ch["proc"].wait(timeout=CHILD_TIMEOUT)
+        except subprocess.TimeoutExpired:
+            ch["proc"].kill()
+            raise Infra(f"child interpreter [{ch['mode']}] did not finish within {CHILD_TIMEOUT} s")
+        try:
+            with open(os.path.join(ch["dir"], "result.json")) as fh:
+                res = json.load(fh)
+        except (OSError, ValueError):
+            err = open(os.path.join(ch["dir"], "stderr")).read()[-1500:]
+            raise Infra(f"child interpreter [{ch['mode']}] gave no answer (rc={rc}): {err}")
+        res["wall_s"] = round(time.time() - ch["t0"], 2)
+        if res.get("fatal") is None and (res.get("optimize") != CHILD_MODES[ch["mode"]][2] or not res.get("asserts_stripped")):
+            raise Infra(f"child interpreter [{ch['mode']}] does not run optimised: {res.get('optimize')}")
+        return res
+    finally:
+        shutil.rmtree(ch["dir"], ignore_errors=True)
+
+
+def children_collect(ctx, children):
+    for ch in children:
+        res = child_result(ch)
+        mode = ch["mode"]
+        ctx.count(f"ambient:child-interpreter:{mode}:items", res.get("done", 0))
+        ctx.notes.append(f"child interpreter [{mode}]: {res.get('done', 0)} items, {len(res.get('failures', []))} differences, sys.flags.optimize="
+                         f"{res.get('optimize')}, {res.get('child_s')} s in the child after start-up (beside the parent; collected after {res['wall_s']} s)")
+        if res.get("fatal") is not None:
+            ctx.fail("library-unusable-in-child-interpreter", {"op": "child", "mode": mode, "item": None},
+                     f"under [{mode}] the library cannot even be imported: {res['fatal']}", actual=res["fatal"])
+            continue
+        for f in res.get("failures", []):
+            ctx.case(("child", mode, json.dumps(f["item"], sort_keys=True)))
+            ctx.fail("interpreter-option-dependent-result", {"op": "child", "mode": mode, "item": f["item"], "reference": f["reference"]},
+                     f"under [{mode}] {item_text(f['item'])}: {f['what']}", expected=f["expected"], actual=f["actual"])
+
+
+def child_main(d):
+    """runs in the child interpreter: the sample of the oracle against the references of the parent"""
+    t0 = time.time()
+    res = {"optimize": sys.flags.optimize, "hashseed": os.environ.get("PYTHONHASHSEED"), "fatal": None, "failures": [], "done": 0}
+    try:
+        assert False, "asserts are executed"
+        res["asserts_stripped"] = True
+    except AssertionError:
+        res["asserts_stripped"] = False
+    out = sys.stdout
+    sys.stdout = open(os.devnull, "w")
+    try:
+        logging.disable(logging.CRITICAL)
+        with open(os.path.join(d, "job.json")) as fh:
+            job = json.load(fh)
+        try:
+            mb, LRRP = mods()
+            mb.MBXML.DEBUG = False
+        except BaseException as e:  # noqa
+            res["fatal"] = f"{type(e).__name__}: {e}"
+            mb = None
+        if mb is not None:
+            if job.get("first_calls_fail"):  # the FIRST use of every entry point in this interpreter is a failing one
+                for fn, args in ((mb.MBXML.from_bytes, (b"\x05\x05\x22",)), (mb.MBXML.from_bytes, (b"",)), (mb.MBXML.as_bytes, (None,)),
+                                 (LRRP.get_token, ("nonexistant", None, {})), (LRRP.get_attribute, ("nonexistant", None)),
+                                 (mb.MBXML.write_part, (None,)), (mb.MBXML.write_sintvar, (None,)), (mb.MBXML.write_ufloatvar, ("x", 1))):
+                    try:
+                        fn(*args)
+                        res.setdefault("prelude_returned", []).append(fn.__name__)
+                    except BaseException:  # noqa
+                        pass
+            for item, ref in job["items"]:
+                got = item_eval(mb, LRRP, item)
+                res["done"] += 1
+                diff = item_differs(ref, got)
+                if diff and len(res["failures"]) < 200:
+                    res["failures"].append({"item": item, "reference": ref, "what": diff[0], "expected": diff[1], "actual": diff[2]})
+    finally:
+        sys.stdout = out
+        res["child_s"] = round(time.time() - t0, 2)
+        tmp = os.path.join(d, "result.json.tmp")
+        with open(tmp, "w") as fh:
+            json.dump(res, fh)
+        os.rename(tmp, os.path.join(d, "result.json"))
+    return 0
+
 
 
 # ------------------------------------------------------------- malformed stream
@@ -1201,6 +2056,8 @@ def run(ctx):
         _run(ctx)
     except Abort:
         ctx.notes.append("three inputs did not terminate within the alarm: generation stopped early")
+    # the reports start with what the property says in so many words (octets), then the state changes behind them
+    ctx.failures.sort(key=lambda f: f["kind"] == "read-only-use-changes-document")
 
 
 def _run(ctx):
@@ -1226,6 +2083,19 @@ def _run(ctx):
         "either kind with either flag), documents assembled from those tokens and parsed back, every returned document / token held "
         "and re-verified, a returned document / token mutated (list operations, attribute rebinding) and the same call repeated.  "
         "Every canonical document parsed in the run is held and re-verified during and at the end of the run.  "
+        "READ-ONLY USE (history class): from_bytes -> any sequence of the 25 read-only-looking accessors of documents and parts "
+        "(as_xml, get_attributes, get_value, repr/str, len/iteration/==/hash, attribute scan, copy/deepcopy/pickle, write_part/as_bytes, "
+        "configuration and table lookups, get_token by id/name/with attributes/other kind, get_attribute) on the SAME objects -> as_bytes "
+        "must give the octets parsed, the documents must read like a fresh parse (oracle and model), copies serialise alike, a fresh parse is "
+        "unchanged: every implemented token x every accessor alone on a never-serialised document, captured/historic buffers rendered, "
+        "500 (quick) random sequences of 1-8 calls on random buffers of 1-3 documents, 300 documents assembled through get_token; "
+        "steps R/RT (read-only use of a held document / token) and X (a failing call: malformed parse with/without debug, as_bytes of a "
+        "broken document, failing lookups) inside the sessions.  INTERPRETER / PROCESS STATE (ambient class): a fixed seeded sample of "
+        f"the whole oracle (about 1000 items) under {len(LOGGING_SETTINGS)} logging configurations, {len(STDOUT_SETTINGS)} broken standard-stream "
+        "settings, warnings as errors, reseeded global random, a worker thread, from_bytes(debug=True), three combinations, and in two child "
+        "interpreters (python -O / PYTHONOPTIMIZE=2 with first-calls-fail prelude, different PYTHONHASHSEED) against the parent's results.  "
+        "A share of the generated buffers is also given as a bytearray that is overwritten afterwards; one buffer of 1200 documents "
+        "(inherited tables) and one document of 2500 tokens.  "
         "Malformed: every truncation of corpus/generated buffers, byte mutations, random octets, each under a 2 s alarm.  "
         "A case is non-trivial unless the buffer is empty; distinct = distinct buffers / API call sequences / sessions."
     )
@@ -1236,12 +2106,31 @@ def _run(ctx):
         "top of Model/Mbxml.lean), tied to the code by this run's correspondence",
         "the reference token tables frozen in harness/props/c15_ref.json and Lemmas/LrrpRef.lean define what the LRRP tokens are",
         "floats are exact dyadic rationals in the model; documents holding a float that is not a double are not compared (INEXACT)",
+        "child interpreters (python -O / PYTHONOPTIMIZE=2) execute harness/props/c15.py::item_eval on items and reference results written by the "
+        "parent; each child confirms that its asserts are stripped",
+        "the model has no state: read-only use between parse and serialisation is the identity there by construction; the code after such use "
+        "is compared with the model's fresh parse",
     ]
     ctx.assumptions += [
         "canonical form = shortest uintvar / sintvar, one-septet fraction, negative zero excluded, inline constant table length != 1",
         "token API: the document id's NCDT flag agrees with the constant-table setting of the assembled document",
+        "read-only accessors may raise (as_xml of a document whose constant table does not hold the referenced constants, print() on a broken "
+        "stdout): only what they leave behind is judged, through as_bytes and the token ids / values / attributes of the documents",
+        "under python -O the library's assertions do not run: the child interpreters are only given inputs of the property (canonical buffers, "
+        "well-formed assemblies); forced thread interleavings are not exercised (the property does not speak of concurrency); "
+        "a caller's memoryview is not tried as input (the parsed values would alias the caller's buffer by design of the slicing reader)",
     ]
     pairs = []
+    # ---- interpreter / process state: the sample and the parent's references; the child interpreters start now and work
+    # beside this process, their answers are collected at the end
+    caps0 = [bytes.fromhex(h) for h in captured_messages() if parse_str(mb, bytes.fromhex(h))[1] is not None]
+    items = ambient_items(ctx, mb, LRRP, caps0)
+    refs = [item_eval(mb, LRRP, it) for it in items]
+    for it, ref in zip(items, refs):
+        ctx.count(f"ambient:sample-item:{it['k']}")
+        if ref[1]:
+            ctx.count("ambient:sample-item-with-a-problem-already-under-the-default-setting")
+    children = [child_start(mode, [[it, ref] for it, ref in zip(items, refs)]) for mode in CHILD_MODES]
     # ---- corpus
     for h in captured_messages():
         x = bytes.fromhex(h)
@@ -1281,8 +2170,33 @@ def _run(ctx):
         gen.append(x)
         ctx.case(("gen", x), sample={"op": "from_bytes/as_bytes", "buffer": x.hex(), "documents": len(exp)} if n < 2 else None)
         pairs.append(check_canonical(ctx, mb, x, exp, "generated"))
+        if n % 8 == 0:  # the same octets in a bytearray that the caller reuses afterwards
+            ba = bytearray(x)
+            line, ds = parse_str(mb, ba)
+            ctx.count("generated:given-as-bytearray-then-overwritten")
+            if line != pairs[-1][1]:
+                ctx.fail("argument-type", {"op": "parse", "buffer": x.hex(), "origin": "generated", "as": "bytearray"},
+                         "from_bytes(bytearray(x)) differs from from_bytes(x)", expected=pairs[-1][1], actual=line)
+            elif ds is not None:
+                ba[:] = bytes([0xFF]) * len(ba)
+                now = " | ".join(doc_str(mb, d) for d in ds)
+                if now != line:
+                    ctx.fail("argument-aliased", {"op": "parse", "buffer": x.hex(), "origin": "generated", "as": "bytearray-overwritten"},
+                             "documents parsed from a bytearray change when the caller overwrites the bytearray", expected=line, actual=now)
         if n % 500 == 499:
             verify_held(ctx, mb, every=7)
+    # scale: one buffer of very many documents (each inheriting the table of the one before), one document of very many tokens
+    for ndocs, ntok in ((ctx.budget(1200, 5000), 1), (1, ctx.budget(2500, 20000))):
+        x, exp = gen_buffer(ctx, ndocs=ndocs, ntok=ntok, cdt_modes=(["inline"] + ["inherited"] * (ndocs - 1)) if ndocs > 1 else None,
+                            dids=[pick(ctx, TABLE_IDS) for _ in range(ndocs)] if ndocs > 1 else [pick(ctx, LRRP_DOCS)])
+        ctx.case(("scale", x))
+        ctx.count(f"generated:scale:{'documents' if ndocs > 1 else 'tokens'}", max(ndocs, ntok))
+        old_alarm = timed.__kwdefaults__["seconds"]
+        timed.__kwdefaults__["seconds"] = 20.0
+        try:
+            check_canonical(ctx, mb, x, exp, "scale", keep=False)  # oracle only: not sent through the model
+        finally:
+            timed.__kwdefaults__["seconds"] = old_alarm
     # every token of every reference table at least once, alone in a document
     for did in LRRP_DOCS:
         d = REF["docs"][str(did)]
@@ -1301,6 +2215,12 @@ def _run(ctx):
     verify_held(ctx, mb)
     if not ctx.search_only and ctx.driver_ok:
         correspond(ctx, "from_bytes+as_bytes(canonical)", pairs)
+    # ---- read-only use between from_bytes and as_bytes
+    del HISTORY_PAIRS[:]
+    run_histories(ctx, mb, LRRP, caps)
+    verify_held(ctx, mb, every=5)
+    if not ctx.search_only and ctx.driver_ok:
+        correspond(ctx, "from_bytes, read-only use of the documents, as_bytes = model (which has no state)", HISTORY_PAIRS)
     # ---- sessions
     spairs = []
     for first in (True, False):
@@ -1357,6 +2277,12 @@ def _run(ctx):
         mpairs.append(check_malformed(ctx, mb, x, "random"))
     if not ctx.search_only and ctx.driver_ok:
         correspond(ctx, "from_bytes+as_bytes(malformed)", mpairs)
+    # ---- the sample under other interpreter / process states (everything is restored after each)
+    for cfg in ambient_settings():
+        main = cfg in AMBIENT_MAIN
+        run_items(ctx, mb, LRRP, items if main else items[::3], refs if main else refs[::3], cfg)
+    ctx.count("ambient:log-records-formatted-by-the-capturing-handler", LOG_RECORDS[0])
+    children_collect(ctx, children)
     # the documents parsed at the beginning, after everything else the run did in this process
     verify_held(ctx, mb)
     ctx.exhaustive = False
@@ -1420,6 +2346,62 @@ def replay(obj):
             for kind, what, expected, actual in pr:
                 still = 1
                 print(f"step {n} {step['s']}: {kind}: {what}\n    expected {expected}\n    actual   {actual}")
+    elif inp.get("op") == "history":
+        x = bytes.fromhex(inp["buffer"])
+        lines.append(f"lrrp.parse {hx(x)}")
+        print(f"from_bytes({inp['buffer']}) -> {parse_str(mb, x)[0]}")
+        print("read-only use of the returned documents [document, accessor, variant]:", inp["ops"], "(serialised once before)" if inp.get("serialised_before") else "")
+        pr = history_eval(mb, LRRP, x, inp["ops"], inp.get("serialised_before", False))
+        for kind, what, expected, actual in pr:
+            print(f"  {kind}: {what}\n    expected {expected}\n    actual   {actual}")
+        still = 1 if pr else 0
+    elif inp.get("op") == "api-history":
+        lines.append(inp["line"])
+        pr = api_history_eval(mb, LRRP, inp["line"], inp["ops"], inp.get("with_configuration", False))
+        print("read-only use of the assembled document [document, accessor, variant]:", inp["ops"])
+        for kind, what, expected, actual in pr:
+            print(f"  {kind}: {what}\n    expected {expected}\n    actual   {actual}")
+        still = 1 if pr else 0
+    elif inp.get("op") == "edit-history":
+        pr = edit_history(mb, LRRP, inp)
+        print("document:", inp.get("buffer") or inp.get("line"), "\nread-only use after the first as_bytes:", inp["ops"], "\nthen edits of doc.parts:", inp["edits"])
+        for kind, what, expected, actual in pr:
+            print(f"  {kind}: {what}\n    expected {expected}\n    actual   {actual}")
+        still = 1 if pr else 0
+    elif inp.get("op") == "ambient":
+        cfg = inp["ambient"]
+        print(f"process state for this replay: {amb_text(cfg)}")
+        ref = item_eval(mb, LRRP, inp["item"])
+        box = []
+        with ambient(cfg):
+            if cfg.get("thread"):
+                th = threading.Thread(target=lambda: box.append(item_eval(mb, LRRP, inp["item"])))
+                th.start()
+                th.join()
+            else:
+                box.append(item_eval(mb, LRRP, inp["item"]))
+        got = box[0] if box else ["", [["thread-died", "", "", ""]]]
+        diff = item_differs(ref, got)
+        print(f"default setting : {ref[0][:600]} {[q[0] for q in ref[1]]}")
+        print(f"under the setting: {got[0][:600]} {[q[0] for q in got[1]]}")
+        for q in got[1]:
+            print(f"  {q[0]}: {q[1]}\n    expected {q[2]}\n    actual   {q[3]}")
+        still = 1 if diff else 0
+    elif inp.get("op") == "child":
+        mode = inp["mode"]
+        print(f"re-running the item in a child interpreter [{mode}]")
+        if inp.get("item") is None:
+            res = child_result(child_start(mode, []))
+            print("child:", res.get("fatal"))
+            return 1 if res.get("fatal") is not None else 0
+        ref = item_eval(mb, LRRP, inp["item"])
+        print(f"this interpreter : {ref[0][:600]} {[q[0] for q in ref[1]]}")
+        res = child_result(child_start(mode, [[inp["item"], ref]]))
+        for x in res.get("failures", []):
+            print(f"child [{mode}, sys.flags.optimize={res.get('optimize')}]: {x['what']}\n    expected {x['expected']}\n    actual   {x['actual']}")
+        if res.get("fatal") is not None:
+            print("child:", res["fatal"])
+        still = 1 if res.get("failures") or res.get("fatal") is not None else 0
     elif inp.get("op") == "hold":
         x = bytes.fromhex(inp["first"])
         line, ds = parse_str(mb, x)
